@@ -163,6 +163,33 @@ fn scan_le(data: &[u8], le: &str) -> Option<usize> {
     None
 }
 
+/// C12 oracle: every generated file of every source uses the line ending of that source's first line
+fn scan_generated_endings(rep: &mut Report, c: &Case, p: &Project, scans: &mut u64, sig: &mut Vec<String>) {
+    for s in &p.sources {
+        let content = &p.files.iter().find(|f| &f.0 == s).unwrap().1;
+        let le = sniff(content);
+        sig.push(format!("le:{}", if le == "\n" { "lf" } else { "crlf" }));
+        let srcid = s.replace('/', "_").replace('.', "_");
+        let out = output_name(s);
+        for (f, data) in &c.imp.after.files {
+            let is_gen = *f == out || f.contains(&format!("t{srcid}_"));
+            if !is_gen {
+                continue;
+            }
+            *scans += 1;
+            if let Some(pos) = scan_le(data, le) {
+                let what = format!(
+                    "generated file `{f}` of source `{s}` (first line ends in {}) has a different line terminator at byte {pos}: {:?} [{}]",
+                    if le == "\n" { "LF" } else { "CRLF" },
+                    String::from_utf8_lossy(data),
+                    c.label
+                );
+                rep.violation("oracle", &what, &replay_body(&c.before, &c.cfg, &c.cmds, &format!("# {what}\n")));
+            }
+        }
+    }
+}
+
 pub fn run_c12(args: &Args) -> Report {
     let mut rep = Report::new("C12", "M5", &args.replay_dir);
     let model = Model::new(&args.model, &args.work);
@@ -192,29 +219,30 @@ pub fn run_c12(args: &Args) -> Report {
         cfg.trailing = !rng.chance(1, 4);
         let mut sig = p.sig.clone();
         let idx = runner.run_here(&cfg, &p.cmds, vec![], &format!("project #{i}"));
-        let c = &runner.cases[idx];
-        if c.imp.verdict == "ok" {
-            for s in &p.sources {
-                let content = &p.files.iter().find(|f| &f.0 == s).unwrap().1;
-                let le = sniff(content);
-                sig.push(format!("le:{}", if le == "\n" { "lf" } else { "crlf" }));
-                let srcid = s.replace('/', "_").replace('.', "_");
-                let out = output_name(s);
-                for (f, data) in &c.imp.after.files {
-                    let is_gen = *f == out || f.contains(&format!("t{srcid}_"));
-                    if !is_gen {
-                        continue;
+        let first_ok = runner.cases[idx].imp.verdict == "ok";
+        if first_ok {
+            scan_generated_endings(&mut rep, &runner.cases[idx], &p, &mut scans, &mut sig);
+        }
+        // history: the ending of the first line of every source is flipped and the project is built again (plain or
+        // only-if-needed) over the files of the first build: same text, other ending - everything must follow the source
+        if first_ok && rng.chance(1, 3) {
+            for s in p.sources.clone() {
+                let c = p.file_mut(&s).unwrap();
+                if let Some(pos) = c.iter().position(|b| *b == b'\n') {
+                    if pos > 0 && c[pos - 1] == b'\r' {
+                        c.remove(pos - 1);
+                    } else {
+                        c.insert(pos, b'\r');
                     }
-                    scans += 1;
-                    if let Some(pos) = scan_le(data, le) {
-                        let what = format!(
-                            "generated file `{f}` of source `{s}` (first line ends in {}) has a different line terminator at byte {pos}: {:?}",
-                            if le == "\n" { "LF" } else { "CRLF" },
-                            String::from_utf8_lossy(data)
-                        );
-                        rep.violation("oracle", &what, &replay_body(&c.before, &c.cfg, &c.cmds, &format!("# {what}\n")));
-                    }
+                    let _ = std::fs::write(runner.dir.join(&s), &*c);
                 }
+            }
+            let mut cfg2 = cfg.clone();
+            cfg2.mode = if rng.chance(1, 2) { "needed" } else { "build" };
+            let idx2 = runner.run_here(&cfg2, &p.cmds, vec!["first-line-ending-flipped".into(), format!("mode:{}", cfg2.mode)], &format!("project #{i} rebuilt ({}) after the first line's ending was flipped", cfg2.mode));
+            if runner.cases[idx2].imp.verdict == "ok" {
+                let mut sig_ignored = vec![];
+                scan_generated_endings(&mut rep, &runner.cases[idx2], &p, &mut scans, &mut sig_ignored);
             }
         }
         let sig2: Vec<String> = sig.iter().filter(|x| x.starts_with("le:") || x.starts_with("long-") || x.contains("tag-store") || x.starts_with("run") || x.starts_with("temp") || x.starts_with("include")).cloned().collect();
